@@ -129,3 +129,9 @@ End Enc.
 Theorem encoding_injective x y : 0 <= x < q_bls -> 0 <= y < q_bls -> @of_Z Fq x = @of_Z Fq y -> x = y.
 Proof. intros Hx Hy E. rewrite !of_Z_fq in E. apply (f_equal val) in E. cbn in E.
   rewrite !Z.mod_small in E by lia. exact E. Qed.
+
+(** the amount encoding is injective on all i64 values *)
+Theorem amount_encoding_injective_on_i64 a a' : is_i64 a -> is_i64 a' -> amount_scalar (K:=Fq) a = amount_scalar a' -> a = a'.
+Proof. intros Ha Ha' E. rewrite !(amount_scalar_spec Fq) in E.
+  apply scalar_encoding_injective_within_q; [|exact E]. unfold is_i64, i64_min, i64_max in *.
+  assert (Q : 2 ^ 64 < q_bls) by (apply Z.ltb_lt; reflexivity). lia. Qed.
